@@ -23,7 +23,7 @@ import (
 	"github.com/libp2p/go-libp2p/internal/verifh"
 )
 
-const c13Timeout = 5 * time.Second
+const c13Timeout = 5 * time.Second // the default; worlds also run with 0 and with 50ms
 
 type c13Run struct {
 	g        *c13Gen
@@ -36,6 +36,7 @@ type c13Run struct {
 	nc       int64
 	mode     int // see c13Gen.message
 	pcap     int
+	tmo      time.Duration
 }
 
 func (x *c13Run) emit(op []int64, ret int64) {
@@ -228,13 +229,28 @@ func (x *c13Run) timeout() {
 			x.e.gates[ch].ch <- c13Answer{data: append(c13Negotiated(ID), body[:len(body)/2+1]...), hang: true}
 			x.g.out.Cover("timeout.remote_silent_mid_message")
 		}
+		x.e.dead[ch] = x.e.gates[ch]
 		delete(x.e.gates, ch)
 	}
 	synctest.Wait()
-	d := c13Timeout + time.Second
+	d := x.tmo + time.Second
 	time.Sleep(d)
 	synctest.Wait()
 	x.emit([]int64{8, int64(d)}, 0)
+}
+
+// the remote answers an exchange that is already over (timed out, or failed at once)
+func (x *c13Run) lateAnswer(ch int64) {
+	c := x.e.taskOf[ch]
+	cs, pad := x.g.message(x.peerOf(c), x.ridOf(c), 0)
+	data := append(c13Negotiated(ID), x.e.encodeChunks(cs, pad)...)
+	select {
+	case x.e.dead[ch].ch <- c13Answer{data: data}:
+	default:
+	}
+	synctest.Wait()
+	x.g.out.Cover("finish.answer_after_the_exchange_is_over")
+	x.emit(append([]int64{6, ch, c, 2}, c13WireChunks(cs)...), 0)
 }
 
 func (x *c13Run) keys(m map[int64]bool) []int64 {
@@ -307,6 +323,14 @@ func (x *c13Run) randomOp() {
 	}})
 	cs = append(cs, choice{5, func() { x.wait(int64(1 + r.Intn(int(x.nc)))) }})
 	cs = append(cs, choice{2, x.timeout})
+	if len(x.e.dead) > 0 {
+		var dead []int64
+		for ch := range x.e.dead {
+			dead = append(dead, ch)
+		}
+		sort.Slice(dead, func(i, j int) bool { return dead[i] < dead[j] })
+		cs = append(cs, choice{3, func() { x.lateAnswer(x.pick(dead)) }})
+	}
 	total := 0
 	for _, c := range cs {
 		total += c.w
@@ -352,25 +376,49 @@ func c13OneCase(t *testing.T, out *verifh.Out, r *verifh.Rand, big bool) {
 			}
 			conns[i] = [4]int64{p, c13Class(c13Addr(rid)), rid, lim}
 		}
-		e := c13NewEnv(np, kinds, maxProtos, pcap, c13Timeout, conns)
+		tmo := c13Timeout
+		switch r.Intn(8) {
+		case 0:
+			tmo = 0
+			out.Cover("world.timeout_zero")
+		case 1:
+			tmo = 50 * time.Millisecond
+			out.Cover("world.timeout_50ms")
+		}
+		maxu := 1000000 // the address book's default limit on unconnected addresses
+		if !big && r.Chance(1, 4) {
+			maxu = 3 + r.Intn(10)
+			out.Cover("world.small_book_limit")
+		}
+		e := c13NewEnv(np, kinds, maxProtos, pcap, maxu, tmo, conns)
 		defer e.close()
 		x := &c13Run{g: &c13Gen{r: r, e: e, out: out}, e: e, inNet: map[int64]bool{}, closed: map[int64]bool{},
-			pend: map[int64]bool{}, notified: map[int64]bool{}, nc: int64(nc), pcap: pcap}
+			pend: map[int64]bool{}, notified: map[int64]bool{}, nc: int64(nc), pcap: pcap, tmo: tmo}
 		if big {
 			x.mode = 1
 		}
 		x.line = []int64{13, int64(np)}
 		x.line = append(x.line, kinds...)
-		x.line = append(x.line, int64(maxProtos), int64(pcap), int64(c13Timeout), int64(nc))
+		x.line = append(x.line, int64(maxProtos), int64(pcap), int64(maxu), int64(tmo), int64(nc))
 		for _, c := range conns {
 			x.line = append(x.line, c[:]...)
 		}
 		// addresses other subsystems left in the book
 		ni := r.Intn(5)
+		if maxu < 100 && r.Bool() {
+			ni = maxu - r.Intn(3) // the book starts near or at its limit
+		}
+		if ni > maxu {
+			ni = maxu // a seed beyond the limit would be refused by the book
+		}
 		x.line = append(x.line, int64(ni))
 		for i := 0; i < ni; i++ {
 			p, a := int64(1+r.Intn(np)), int64(1+r.Intn(24))
 			code := []int64{1, 2, 2, 4, 5}[r.Intn(5)]
+			if maxu < 100 {
+				a = int64(30 + i) // distinct, so that every seed counts
+				code = []int64{2, 5, 5, 4}[r.Intn(4)]
+			}
 			e.raw.AddAddr(e.peers[p].id, c13Addr(a), c13TTLOf(code))
 			x.line = append(x.line, p, a, code)
 		}
@@ -385,7 +433,7 @@ func c13OneCase(t *testing.T, out *verifh.Out, r *verifh.Rand, big bool) {
 				x.connected(2)
 			}
 			x.mode = 2
-			if r.Bool() {
+			if _, pending := e.gates[1]; pending && r.Bool() {
 				x.finish(1, 2)
 			} else {
 				x.push(1)
@@ -450,12 +498,12 @@ func c13RaceCase(out *verifh.Out, r *verifh.Rand) {
 		rid := int64(1 + r.Intn(24))
 		conns[i] = [4]int64{1, c13Class(c13Addr(rid)), rid, 0}
 	}
-	e := c13NewEnv(np, kinds, 128, 64, c13Timeout, conns)
+	e := c13NewEnv(np, kinds, 128, 64, 1000000, c13Timeout, conns)
 	defer e.close()
 	g := &c13Gen{r: r, e: e, out: out}
 	line := []int64{14, int64(np)}
 	line = append(line, kinds...)
-	line = append(line, 128, 64, int64(c13Timeout), int64(nc))
+	line = append(line, 128, 64, 1000000, int64(c13Timeout), int64(nc))
 	for _, c := range conns {
 		line = append(line, c[:]...)
 	}
